@@ -6,6 +6,12 @@ props=[json.loads(l) for l in open('/verif/properties.jsonl')]
 ids=[p['id'] for p in props]
 TB="trusted: SMT solvers sound for unsat; Go compiler/runtime semantics as encoded (DESIGN.md s5); native models of dependency functions listed in the evidence file; lengths <= 2^40; non-nil non-aliasing pointer parameters"
 claimed={
+ 'C20':dict(technique="contract-based deductive verification: postconditions equating each primitive with a mathematical spec function (pure Go, translated to SMT), loop invariants over uninterpreted folds, discharged by z3/cvc5 over the full bit-vector domains",
+   text="Proof over entire domains (not enumeration): BCD, one's and two's complement (all widths 1..16), the three analog parsers, the IPMI checksum (sum of data plus checksum is 0 mod 256, any length), BCD-plus / packed 6-bit / 8-bit ID strings for every length 0..31 (character by character against independent spec functions, including the code's BCD-plus table as initialised by the package), DCMI rolling-average byte to duration and duration to byte (floor and exact round trip for every duration up to 2^53 ns), and the entity-instance split.",
+   note=TB+"; math.Ceil/Floor of int/const quotients and time.Duration.Seconds/Minutes/Hours are modelled as exact rational arithmetic (float64 treated as real); string([]rune) is the identity on ASCII",ref="DESIGN.md s9 C20"),
+ 'C07':dict(technique="contract-based deductive verification: per-field postconditions (result == nil ==> field == byte-level spec of IPMI v2.0 / DCMI 1.5 tables) and exact accept/reject conditions on every response decoder, VCs from go/ssa, z3/cvc5; failed clauses replayed as in-package tests",
+   text="Proof, for every byte string, that each response decoder of pkg/ipmi and pkg/dcmi (commands, SDR header, Full Sensor Record incl. all ID-string encodings and 10-bit/4-bit two's-complement factors, session wrappers, RMCP+ setup messages, DCMI capability layouts 1.0/1.1/1.5) accepts exactly the inputs long enough / well-formed per the layout and, when it accepts, sets every field to the value the specification's layout assigns to those bytes; checksum and length-field rejection conditions of Message and V2Session are postconditions. Since the spec's encoding of a value assignment is exactly those byte positions, decoding the encoding of any assignment returns it.",
+   note=TB+"; the byte layouts are transcribed from the IPMI/DCMI tables by section (the PDFs in the repository are LFS stubs) using different formulations than the code (div/mod, le16/le32, spec tables); polarity of the per-message/user-level authentication bits and the SELMaxEntries byte order follow the repository's documented choice; values returned by the high-level API wrappers are not yet covered",ref="DESIGN.md s9 C07"),
  'C17':dict(technique="contract-based deductive verification: generated non-interference (2-safety) VCs per observable receiver field over the go/ssa encoding of each decoder, by substitution of an independent prior receiver state (self-composition where control flow depends on state); z3/cvc5; counterexamples replayed (reused vs fresh value) with go test -overlay",
    text="Proof, for every decoder of pkg/ipmi and pkg/dcmi, every input and every pair of prior receiver states, that acceptance and every exported field written by the decoder are functions of the decoded bytes (and declared configuration fields) only. Connection-level reuse (layers overwritten before each send) is not yet covered by this check.",
    note=TB+"; byte slices and strings are compared by length and content, nil-ness of empty slices is not compared; fields a decoder never writes are not outputs",ref="DESIGN.md s9 C17"),
